@@ -19,6 +19,9 @@ CLAIMED = {
  'C14': dict(cat='model_checking', tech='bounded model checking (CBMC/SAT) of the real SOLReader2 code translated from clang IR; header integers / line bytes / (thorough) the whole file content are symbolic',
    text='Quick tier: the suffix-header integer parser Lget (all lines <= 12 bytes) and sufheadcheck (all 2^160 header integer tuples) are decided: cursor inside the line, no signed overflow, accepted headers get a scratch buffer that holds name and table, no exception escapes. Thorough tier: gsufread / bsufread / ReadSOLFile over a symbolic file (deterministic stdio model) with a checking handler.',
    note='Partial: the monolithic gsufread/bsufread/ReadSOLFile functions need > 15 min of symbolic execution even for short files, so they are only in the thorough tier (and may time out there; then they are reported NOT-DECIDED, never as pass). libc strtol/strtod are faithful end-pointer models (value exact for integers <= 15 digits); serror formatting is a stub; allocations <= 4096 bytes.', ref='DESIGN.md 3 C14'),
+ 'C18': dict(cat='model_checking', tech='bounded model checking (CBMC/SAT) of the real mp::Equal / std::hash<mp::Expr> translated from clang IR, on trees built by the real ExprFactory from symbolic recipes (enumerated shape x solver-decided constants/indices/strings)',
+   text='For every root category (20), operator, arity and leaf-kind combination listed in the evidence, two or three trees are built by the real factory with ALL numeric constants (any 64-bit pattern), indices and string bytes symbolic; Equal is compared with structural identity of the recipes, and symmetry, reflexivity, copy-equality, transitivity and Equal=>same-hash are asserted, with CBMC pointer checks for memory safety.',
+   note='Shape (root kind/operator/arity/leaf kinds) is enumerated, not symbolic (symbolic node kinds make symbolic execution explode); depth <= 3, arity <= 3, strings <= 2 bytes; quick tier omits PL terms and calls (thorough only). std::_Hash_bytes is replaced by a deterministic byte mixer; +0/-0 expectation left open.', ref='DESIGN.md 3 C18'),
 }
 NA = {
  'C09': 'whole-process driver behaviour (exit status, stderr, .sol file on disk) over an instantiated backend: no bounded unit states it and neither CBMC nor the IR engines can carry main->BackendApp::Run with filesystem effects; its encodable ingredients are decided under C02, C10, C11, C12',
